@@ -158,9 +158,14 @@ func classifyLoop(p *core.Prog, fn *ssa.Function, h *ssa.BasicBlock, body map[*s
 			}
 		}
 		// cursor: leaves when Empty(cursor)
-		if f.R == nil && f.L.Op == "call" && f.L.Name == "(cryptobyte.String).Empty" {
-			exitOnEmpty := (f.Op == "true") != stay || true
-			_ = exitOnEmpty
+		// (spelled Empty() or as a comparison of its length with zero)
+		isEmptyTest := f.R == nil && f.L.Op == "call" && f.L.Name == "(cryptobyte.String).Empty"
+		if f.R != nil && f.L.Op == "call" && f.L.Name == "len" && f.R.Op == "const" && f.R.Name == "0" && (f.Op == ">" || f.Op == "==" || f.Op == "!=") {
+			if u, ok := f.L.Val.(*ssa.Call); ok && len(u.Call.Args) == 1 && strings.HasSuffix(u.Call.Args[0].Type().String(), "cryptobyte.String") {
+				isEmptyTest = true
+			}
+		}
+		if isEmptyTest {
 			if u, ok := f.L.Val.(*ssa.Call); ok && len(u.Call.Args) == 1 {
 				if cur := cursorCell(p, u.Call.Args[0]); cur != nil {
 					if ph, isPhi := cur.(*ssa.Phi); isPhi && body[ph.Block()] {
